@@ -1685,6 +1685,12 @@ def sprog_model(sp):
         raise Unrecognised("closed jaxpr with constants")
     nin, eqns, out, counter = flatten_jaxpr(cj.jaxpr)
     tab, prog, keys = {}, [], []
+    # the plugins' work-dtype tables select between a direct Reduce* and Cast -> Reduce* -> Cast (LiftStruct proves both;
+    # tie S checks the real export against the variant the table selects; an invalid direct variant is a finding)
+    from jax2onnx.plugins.jax.lax import _reduce_utils as _ru
+    work = {"sum64": {str(np.dtype(d_)) for d_ in getattr(_ru, "_REDUCESUM_INT64_WORK_DTYPES", ())},
+            "prod64": {str(np.dtype(d_)) for d_ in getattr(_ru, "_REDUCEPROD_INT64_WORK_DTYPES", ())},
+            "mm32": {str(np.dtype(d_)) for d_ in getattr(_ru, "_REDUCEMINMAX_INT32_WORK_DTYPES", ())}}
 
     def dtn(aval):
         return str(np.dtype(aval.dtype))
@@ -1748,8 +1754,12 @@ def sprog_model(sp):
                 emit(f"{p}@{list(axes)}/{rank}", f"G{'ReduceAnd' if rk == 'RAnd' else 'ReduceOr'} {mask}", [operand(ins[0])], o)
             elif src not in INT_DTYPES or out_dt not in INT_DTYPES:
                 raise Unrecognised(f"{prim} {src} -> {out_dt}")
-            elif rk == "RSum" and (req or src) in ("uint8", "uint16", "uint32"):
+            elif rk == "RSum" and (req or src) in work["sum64"]:
                 emit(f"{p}:{src}>{out_dt}@{list(axes)}/{rank}", f"GReduceSum64 {sb_lit(out_dt)} {mask}", [operand(ins[0])], o)
+            elif rk == "RProd" and (req or src) in work["prod64"]:
+                emit(f"{p}:{src}>{out_dt}@{list(axes)}/{rank}", f"GReduceProd64 {sb_lit(out_dt)} {mask}", [operand(ins[0])], o)
+            elif rk in ("RMax", "RMin") and src in work["mm32"] and src == out_dt:
+                emit(f"{p}:{src}@{list(axes)}/{rank}", f"GReduce{rk[1:]}32 {sb_lit(src)} {mask}", [operand(ins[0])], o)
             elif req is None and src == out_dt:
                 emit(f"{p}:{src}@{list(axes)}/{rank}", f"GReduce {rk} {sb_lit(src)} {mask}", [operand(ins[0])], o)
             else:
@@ -2026,6 +2036,9 @@ JNP_PROVED = {"abs": "jnp_abs", "add": "jnp_add", "bitwise_and": "jnp_bitwise_an
               "left_shift": "jnp_left_shift", "less": "jnp_less", "less_equal": "jnp_less_equal", "maximum": "jnp_maximum",
               "minimum": "jnp_minimum", "right_shift": "jnp_right_shift", "sign": "jnp_sign", "where": "where",
               "pow": "jnp_power2, jnp_power3 (constant exponent)", "power": "jnp_power2, jnp_power3 (constant exponent)"}
+# plugins whose integer lowering is a tensor-level kernel of LiftStruct, exercised by a traced program of corpus (f)
+JNP_TRACED = {"sum": "sum_axis", "prod": "prod_axis", "max": "max_min", "min": "max_min", "all": "any_all", "any": "any_all",
+              "concatenate": "jnp_concat", "squeeze": "expand_sq", "transpose": "perm3"}
 _FLOAT = "floating-point numerics (not exact)"
 _RED = "reduction / scan over an axis (not an elementwise kernel)"
 _MOVE = "data movement / shape / construction (no arithmetic on the elements; C03, C08 cover the structure)"
@@ -2038,27 +2051,29 @@ JNP_NOT_EXACT = {
     "floor": "float operator; integer operands are promoted to float by JAX (lax.floor is the exact kernel)",
     "divide": "true division of integers yields a rounded float (Cast, Cast, Div): explored only",
     "select": "jnp.select (list of conditions): a Where cascade, explored only",
-    **{n: _RED for n in ("all", "any", "amax", "amin", "max", "min", "argmax", "argmin", "cumprod", "cumsum", "nancumprod", "mean", "prod",
-                         "sum", "sort", "unique", "searchsorted", "digitize", "histogram", "histogram2d", "histogramdd")},
-    **{n: _MOVE for n in ("arange", "compress", "concatenate", "diag", "diagonal", "eye", "full", "moveaxis", "ones", "pad", "reshape",
-                          "shape", "size", "split", "squeeze", "stack", "take", "tile", "transpose", "trilu", "unstack", "zeros")},
+    **{n: _RED for n in ("amax", "amin", "argmax", "argmin", "cumprod", "cumsum", "nancumprod", "mean",
+                         "sort", "unique", "searchsorted", "digitize", "histogram", "histogram2d", "histogramdd")},
+    **{n: _MOVE for n in ("arange", "compress", "diag", "diagonal", "eye", "full", "moveaxis", "ones", "pad", "reshape",
+                          "shape", "size", "split", "stack", "take", "tile", "trilu", "unstack", "zeros")},
     **{n: _LIN for n in ("dot", "einsum", "matmul", "outer", "linalg.det", "linalg.inv", "linalg.norm", "linalg.solve", "linalg.tensorinv",
                          "linalg.tensorsolve")},
 }
 
 
-def jnp_inventory(ctx, kernel_names):
+def jnp_inventory(ctx, kernel_names, traced_ids=()):
     from jax2onnx.plugins import plugin_system as ps
     ps.import_all_plugins()
     reg = sorted(n[len("jax.numpy."):] for n in ps.PLUGIN_REGISTRY if n.startswith("jax.numpy."))
-    unclassified = [n for n in reg if n not in JNP_PROVED and n not in JNP_NOT_EXACT]
+    unclassified = [n for n in reg if n not in JNP_PROVED and n not in JNP_NOT_EXACT and n not in JNP_TRACED]
     missing = [f"{n} -> {k_}" for n, ks_ in JNP_PROVED.items() if n in reg
                for k_ in re.findall(r"[a-z_0-9]+", ks_.split("(")[0]) if k_ not in kernel_names]
+    missing += [f"{n} -> traced program {pid}" for n, pid in JNP_TRACED.items() if n in reg and pid not in traced_ids]
     ctx.oblige(f"inventory:every-jax.numpy-plugin-is-proved-or-explicitly-not-exact({len(reg)} plugins, "
-               f"{sum(n in JNP_PROVED for n in reg)} proved)", not unclassified and not missing, "tie",
+               f"{sum(n in JNP_PROVED or n in JNP_TRACED for n in reg)} proved)", not unclassified and not missing, "tie",
                ("unclassified jax.numpy plugins (add a kernel or list them in JNP_NOT_EXACT with the reason): " + ", ".join(unclassified)
                 if unclassified else "") + ("; proved entries without a kernel: " + ", ".join(missing) if missing else ""))
     ctx.coverage["c01k_jnp_plugins"] = {"registered": len(reg), "proved": sorted(n for n in reg if n in JNP_PROVED),
+                                        "proved_at_tensor_level_by_traced_programs": sorted(n for n in reg if n in JNP_TRACED),
                                         "explicitly_not_exact": len([n for n in reg if n in JNP_NOT_EXACT])}
 
 
@@ -2112,7 +2127,7 @@ def run(ctx):
     t_ = _time.time()
 
     ks = _kernels()
-    jnp_inventory(ctx, {k.name for k in ks})
+    jnp_inventory(ctx, {k.name for k in ks}, {sp_.id for sp_ in struct_corpus(tier)})
     variants = [Variant(k, dt) for k in ks for dt in k.dtypes]
     if tier == "quick":
         # the quick tier keeps every kernel and every dtype family but drops some redundant width variants
